@@ -36,6 +36,7 @@ def main():
     if "-j" in sys.argv:
         jobs = int(sys.argv[sys.argv.index("-j") + 1]); args = [a for a in args if a != str(jobs)]
     seeded = "--seeded" in sys.argv
+    harmless = "--harmless" in sys.argv  # edits that keep the property: the check must stay silent (exit 0)
     verbose = "-v" in sys.argv
     match = ""
     if "--match" in sys.argv:
@@ -52,7 +53,7 @@ def main():
             if match and match not in os.path.basename(os.path.dirname(meta)): continue
             work.append((prop, os.path.join(os.path.dirname(meta), "patch.diff"), m.get("expect_obligation", "")))
     else:
-        for patch in sorted(glob.glob(os.path.join(VERIF, "selftest", "mutants", "*", "*.patch"))):
+        for patch in sorted(glob.glob(os.path.join(VERIF, "selftest", "harmless" if harmless else "mutants", "*", "*.patch"))):
             prop = os.path.basename(os.path.dirname(patch))
             if args and prop not in args: continue
             if match and match not in os.path.basename(patch): continue
@@ -80,8 +81,12 @@ def main():
             bad += 1
     with concurrent.futures.ThreadPoolExecutor(max_workers=jobs) as ex:
         for prop, patch, verdict, out, dt in ex.map(lambda w: run_one(*w), work):
+            if harmless:
+                verdict = "SILENT" if verdict == "MISSED(exit 0)" else ("ALARM" if verdict == "CAUGHT" else verdict.replace("MISSED", "UNDECIDED"))
+                if verdict == "UNDECIDED(exit 2)" and open(patch).readline().startswith("# undecided") and "VIOLATION property=" not in out:
+                    verdict = "SILENT"  # documented: cannot decide (exit 2), never an accusation
             print("%-8s %-60s %s (%.1fs)" % (prop, os.path.relpath(patch, VERIF), verdict, dt))
-            if verdict != "CAUGHT":
+            if verdict not in ("CAUGHT", "SILENT"):
                 bad += 1
                 if verbose or True:
                     print("    " + "\n    ".join(out.strip().splitlines()[-8:]))
